@@ -236,11 +236,39 @@ def ground_truth(chk, prog):
         chk.finding("GROUND-TRUTH", SENS, "Sensors.__init__", "generate not called with self.rotations", "sensor data are generated from other rotations than the reported ones", line=f.node.lineno)
     # the given-quaternion arm derives angular positions and velocities from the same object
     txt = ast.unparse(f.node)
-    for need in ("self.quaternions.to_angles()", "self.quaternions.angular_velocities(1 / self.frequency)"):
+    for need in ("self.quaternions.angular_velocities(1 / self.frequency)",):
         if need in txt:
             chk.record("GROUND-TRUTH", f.ref + "::" + need, "derived from the stored quaternions")
         else:
             chk.error("GROUND-TRUTH: `%s` not found in Sensors.__init__ (anchor changed)" % need)
+    # angular positions of a given trajectory: quaternions.to_angles(), or an expression of the stored quaternions / rotations that is PROVED equal to it
+    # (interpreted on two symbolic unit rows; SO(3) gates of intermediate constructors answered true)
+    derived = [s for s in ast.walk(f.node) if isinstance(s, ast.Assign) and len(s.targets) == 1 and ast.unparse(s.targets[0]) == "self.ang_pos"
+               and any(k in ast.unparse(s.value) for k in ("self.quaternions", "self.rotations"))]
+    if not derived:
+        chk.error("GROUND-TRUTH: no assignment of self.ang_pos from the stored quaternions / rotations found in Sensors.__init__ (anchor changed)")
+    for s in derived:
+        site = f.ref + "::" + stmt_text(s)[:60]
+        if ast.unparse(s.value) == "self.quaternions.to_angles()":
+            chk.record("GROUND-TRUTH", site, "angular positions are quaternions.to_angles()")
+            continue
+
+        def law(s=s):
+            from sa.symeval import Env, unit_syms
+            from sa.lib import quat_obj
+            QUAT_ = "ahrs/common/quaternion.py"
+            it = Interp(prog, oracle=lambda c, i: True if c.op in ("isclose", "allclose") and i.func_stack and "SO3" in i.func_stack[-1].name else None)
+            rows = [unit_syms("gta"), unit_syms("gtb")]
+            qa = quat_obj(it, np.vstack(rows), cls="QuaternionArray")
+            rot = it.run(prog.func(QUAT_ + "::QuaternionArray.to_DCM"), [], self_obj=qa)
+            obj = it.make_obj(SENS + "::Sensors", quaternions=qa, rotations=rot, num_samples=2, frequency=P.sym("freq"))
+            env = Env(f.module, f)
+            env.vars["self"] = obj
+            got = to_obj(it.eval(s.value, env))
+            want = [to_obj(it.run(prog.func(QUAT_ + "::Quaternion.to_angles"), [], self_obj=quat_obj(it, r_))) for r_ in rows]
+            return all_of(*[eq(got[i], want[i], "ang_pos[%d] vs Quaternion(row %d).to_angles()" % (i, i)) for i in range(2)])
+        chk.ob("GROUND-TRUTH.angles", site, "the angular positions computed by `%s` are the roll-pitch-yaw angles of the stored quaternions" % ast.unparse(s.value)[:50], law,
+               module=SENS, function="Sensors.__init__", construct="angular positions of the given trajectory", line=s.lineno)
 
 
 def sampling_step(chk, prog):
